@@ -83,7 +83,10 @@ func (c14) Enumerate(tier string, seed int64, yield func(string, core.Case) bool
 		if len(f) < 2 {
 			return true
 		}
-		return withCosts("S3", cnfProb("slicenb", f, n, n), n, 1, len(f) == 3)
+		if len(f) == 3 {
+			return emit("S3", cnfProb("slicenb", f, n, n), 1, true)
+		}
+		return withCosts("S3", cnfProb("slicenb", f, n, n), n, 1, false)
 	}) {
 		return
 	}
@@ -143,6 +146,7 @@ func (c14) Enumerate(tier string, seed int64, yield func(string, core.Case) bool
 			}
 		}
 	}
+	pbn := 0
 	enumConstraintSets(tier, func(fam string, p Prob) bool {
 		switch fam {
 		case "card1u", "pb1":
@@ -150,7 +154,16 @@ func (c14) Enumerate(tier string, seed int64, yield func(string, core.Case) bool
 		case "card2":
 			return emit(fam, p, 0, false)
 		case "pb2n3":
-			return withCosts(fam, p, 3, 0, false) && emit(fam, p, 1, false)
+			pbn++
+			if pbn%23 == 0 || thorough {
+				if !withCosts(fam, p, 3, 0, false) {
+					return false
+				}
+			}
+			if pbn%5 == 0 || thorough {
+				return emit(fam, p, 1, false)
+			}
+			return emit(fam, p, 0, false)
 		case "dec":
 			if len(p.Cs) > 3 {
 				return true
@@ -215,6 +228,16 @@ func (c14) Exec(cc core.Case, r *core.Rec) []core.Failure {
 		})
 		boundSets[b] = s
 		return s
+	}
+	if c.P.Front == "card" || c.P.Front == "pb" {
+		if pb, err := safeBuild(c.P); err == nil && pb != nil {
+			for _, l := range c.P.CostL {
+				if l > pb.NbVars || -l > pb.NbVars {
+					r.Count("skipped_cost_variable_unknown_to_front_end", 1)
+					return nil
+				}
+			}
+		}
 	}
 	return exploreProb(r, c.Dev, c, "cutting-planes", func(choices []int) []core.Failure {
 		var evts []learnedEvt
